@@ -178,8 +178,8 @@ def run(ctx, prop):
     progs = res.tr("PROG")
     n_base = len(progs)
     if thorough:
-        space = {"core": 8, "ali": 24, "cst": 11, "par": 12, "elim": 14, "ini": (0, 3), "row": (1, 3), "use": 4,
-                 "rev": (0, 1)}
+        space = {"core": 8, "ali": 30, "cst": 11, "par": 12, "elim": 16, "ini": (0, 3), "row": (1, 3), "use": 4,
+                 "rev": (0, 1), "dne": (0, 2), "perm": (0, 5)}
         draws, seen = [], {bpkey(p["bp"]) for p in progs}
         while len(draws) < int(os.environ.get("VERIF_SIMPLIFY_DRAWS", "400")):
             bp = {k: (rng.randint(*v) if isinstance(v, tuple) else rng.randint(1, v)) for k, v in space.items()}
